@@ -11,6 +11,7 @@ Model of tonic's status ↔ header codec (C04), following `tonic/src/status.rs`:
   * `Status::from_header_map`                                        → `fromHeaderMap`
   * `infer_grpc_status` + the end-of-body step of `Streaming`        → `inferGrpcStatus` / `streamEnd`
   * `code_from_h2`, `to_h2_error`                                    → `codeFromH2` / `toH2`
+(`Streaming` meeting a body WITH data is `Model/Framing.lean`; as found: `Model/FramingAsFound.lean`.)
 `Variant.orig` is the pinned tree as found; `Variant.fixed` is the tree with the repairs
 fixes/fix-C04-details-base64-panic.patch, fixes/fix-C04-h2-frame-size.patch and
 fixes/fix-C12-status-details-metadata.patch applied (the tree the correspondence run drives).
@@ -213,10 +214,14 @@ def inferGrpcStatus (v : Variant) (trailers : Option HMap) (http : Nat) : Infer 
     | none => .noStatus
     | some c => .err { code := c, message := inferMessage http, details := [], metadata := [] }
 
-/-- What `Streaming::message()` yields at the end of a response body that carried no data and
-whose trailers frames were `frames`, and the trailers still retrievable afterwards.  The first
-trailers frame ends the stream (`poll_frame` returns `Ok(None)` for it and `poll_next` goes
-straight to `response()`), so later frames are never read. -/
+/-- What `Streaming::message()` yields at the end of a response body whose trailers frames were
+`frames`, and the trailers still retrievable afterwards.  The first trailers frame ends the
+stream (`poll_frame` returns `Ok(None)` for it and `poll_next` goes straight to `response()`), so
+later frames are never read.  This is the whole story for a body without DATA, and — on the
+repaired tree — for ANY body of a response whose HTTP status is not 200: its DATA is dropped
+unread (`Framing.DecCfg.skipsBody`; theorems `C04_http_table_any_body`, `C04_non200_no_message`,
+`C04_trailers_status_wins_any_body` on the stream model `Framing.Dec`).  The DATA of a 200
+response is the message stream (`Model/Framing.lean`, C01/C06/C07). -/
 inductive StreamEnd
   | finished (trailers : Option HMap)
   | err (st : St)
